@@ -255,9 +255,9 @@ func SimC02(c *CheckCtx, i int, r *Rng) error {
 		if !isOut || !(e.Kind == "os.rename" || (e.Kind == "os.open" && e.N&(os.O_WRONLY|os.O_RDWR) != 0) || (e.Kind == "os.write" && (e.Nth == 0 || r.P(0.02)))) {
 			continue
 		}
-		do := "errno:" + Pick(r, []string{"EACCES", "ENOSPC", "EISDIR", "EIO"})
+		do := "errno:" + Pick(r, errnosFor(e.Kind))
 		if e.Kind == "os.write" {
-			do = "short:0:ENOSPC"
+			do = "short:0:" + Pick(r, writeErrnos)
 		}
 		points = append(points, failurePoint{name: fmt.Sprintf("ioerr@%d:%s:%s", e.Exec, e.Kind, e.Path), fault: proto.Fault{ExecSeq: -1, Kind: e.Kind, Path: e.Path, Phase: "exec", Nth: e.Nth, Do: do}})
 	}
@@ -369,10 +369,31 @@ func SimC01(c *CheckCtx, i int, r *Rng) error {
 	var setup []Op
 	if r.P(0.3) {
 		// files exist already: the open truncates instead of creating
-		setup = append(setup, Op{Kind: "run", Run: &RunOp{Args: args, Gens: gens, Sched: simrt.Schedule{Default: "asc"}, Fresh: true}})
-		if r.P(0.4) {
+		setupGens := gens
+		if r.P(0.5) {
+			// ... written by other versions of the generators: the victim run has to CHANGE them
+			setupGens = []proto.GenScript{Probe()}
+			for k, n := range names {
+				g := DrawScript(r, scfg, m, n)
+				g.Impl, g.NoAlias = gens[k+1].Impl, gens[k+1].NoAlias
+				setupGens = append(setupGens, g)
+			}
+			victim.Args.Force = true
+		}
+		setup = append(setup, Op{Kind: "run", Run: &RunOp{Args: args, Gens: setupGens, Sched: simrt.Schedule{Default: "asc"}, Fresh: true}})
+		switch {
+		case r.P(0.3):
 			// ... as links to files kept elsewhere
 			setup = append(setup, Op{Kind: "linkout", K: Pick(r, eps)})
+			victim.Args.Force = true
+		case r.P(0.4):
+			// ... read-only, or with clocks from the future or the past
+			pi := Pick(r, eps)
+			if r.P(0.4) {
+				setup = append(setup, Op{Kind: "protect", K: pi})
+			} else {
+				setup = append(setup, Op{Kind: "outclock", K: pi, How: Pick(r, []string{"future", "future", "old"})})
+			}
 			victim.Args.Force = true
 		}
 	}
@@ -405,7 +426,7 @@ func SimC01(c *CheckCtx, i int, r *Rng) error {
 			if e.N&(os.O_WRONLY|os.O_RDWR) == 0 {
 				continue
 			}
-			for _, errno := range []string{"EACCES", "ENOSPC", "EMFILE", "EISDIR", "ENOENT", "EROFS"} {
+			for _, errno := range openErrnos {
 				if c.Tier != "thorough" && !r.P(0.5) {
 					continue
 				}
@@ -415,7 +436,7 @@ func SimC01(c *CheckCtx, i int, r *Rng) error {
 		case "os.write":
 			writes[e.Path] = append(writes[e.Path], e)
 		case "os.remove", "os.rename", "os.close", "os.sync":
-			points = append(points, fp{e.Kind[3:] + ":" + e.Path, proto.Fault{ExecSeq: -1, Kind: e.Kind, Path: e.Path, Phase: "exec", Nth: e.Nth, Do: "errno:" + Pick(r, []string{"EACCES", "EIO", "ENOSPC"})}})
+			points = append(points, fp{e.Kind[3:] + ":" + e.Path, proto.Fault{ExecSeq: -1, Kind: e.Kind, Path: e.Path, Phase: "exec", Nth: e.Nth, Do: "errno:" + Pick(r, errnosFor(e.Kind))}})
 		}
 	}
 	// the caller's context is cancelled at a generator callback: whatever gengo does about it, a nil
